@@ -323,6 +323,7 @@ pub fn build_ext(h: &RHistory, ext: &Ext) -> Built {
     let mut pending = false;
     let mut perturbed_id = None;
     let mut twin_type: Option<usize> = None;
+    let mut sibling_name: Option<&'static str> = None;
     // names of the data removed since the last close (a new datum may take such a name at once)
     let mut removed_names: Vec<String> = Vec::new();
     for req in &h.reqs {
@@ -373,11 +374,27 @@ pub fn build_ext(h: &RHistory, ext: &Ext) -> Built {
                     Some(n) if n % 3 == 0 => removed_names.iter().find(|r| b.get_current_datum_definition_by_name(r).is_none()).cloned(),
                     _ => None,
                 };
-                let field_name = match (retake, pooled) {
+                let mut field_name = match (retake, pooled) {
                     (Some(r), _) => r,
                     (None, Some(n)) => n.to_string(),
                     (None, None) => format!("f{}", counter),
                 };
+                // names that differ by their case convention only come in pairs, with one type
+                if let Some(partner) = sibling_name.take() {
+                    if b.get_current_datum_definition_by_name(partner).is_none() {
+                        field_name = partner.to_string();
+                    }
+                }
+                if let Some(partner) = match field_name.as_str() {
+                    "userId" => Some("user_id"),
+                    "Flags" => Some("flags"),
+                    _ => None,
+                } {
+                    if ext.perturb.is_none() && ext.markers.is_empty() {
+                        sibling_name = Some(partner);
+                        twin_type = Some(idx);
+                    }
+                }
                 counter += 1;
                 let mut rec_info = info.clone();
                 let mut rec_uninit = (*uninit || h.profile == 5) && is_copy;
